@@ -247,7 +247,7 @@ TIE_TEXT = {
     "motion": " The motion and halt commands are translated across both classes (tools/gen_motion.py -> Gen/MotionSrc.lean: move, rapid, "
               "move_absolute, rapid_absolute with the absolute_mode() context manager inlined, set_axis, auto_home, probe, halt, wait/pause/stop, "
               "emergency_halt, comment, add_hook/remove_hook, the move_hook() context manager and their helpers in gscrib/gcode_builder.py and gscrib/gcode_core.py) and "
-              "Props/MotionTie.lean (27 theorems incl. MotionTie_go_xf / _goabs_xf / _setaxis_xf: move() / rapid() under any transformer state, the bypass moves and set_axis write exactly the C04 model's statements and track its position; MotionTie_transform_move_xf: the translated _transform_move with self.transform.apply_transform an arbitrary function is the C04 model's transformMove for every transformer state, tracked position, request and both modes; MotionTie_init: the translated constructors yield the model's initial builder, every tracked field assigned per object; set_length_units, the mode context managers as enter / exit pairs, and MotionTie_run: for every history the translated source yields the builder and the statements the model yields) re-proved for every state, finite target, parameter list and hook list: same outcome, same builder "
+              "Props/MotionTie.lean (29 theorems incl. MotionTie_go_xf / _probe_xf / _goabs_xf / _setaxis_xf: move() / rapid() / probe() under any transformer state, the bypass moves and set_axis write exactly the C04 model's statements and track its position; MotionTie_transform_move_xf: the translated _transform_move with self.transform.apply_transform an arbitrary function is the C04 model's transformMove for every transformer state, tracked position, request and both modes; MotionTie_init: the translated constructors yield the model's initial builder, every tracked field assigned per object; set_length_units, the mode context managers as enter / exit pairs, and MotionTie_run: for every history the translated source yields the builder and the statements the model yields) re-proved for every state, finite target, parameter list and hook list: same outcome, same builder "
               "afterwards (a rejected call leaves it untouched: MotionTie_reject_unchanged/_silent), same statements in the same order "
               "(instruction, axis words, other words, the G90/G91 bracket), same hook calls with the true origin and target; Props/SourceTie.lean "
               "(SourceTie_C01, SourceTie_C02 and their _new forms for histories from a newly constructed builder, SourceTie_C05 - erasing the rejected calls changes neither the final builder nor, away from the listed site, the output of the translated source -, SourceTie_C06 - the translated emergency_halt() succeeds from every state under every bounds table and writes M05, M09, the comment, M00|M30 -, SourceTie_C07; same audit) restates C01 and C02 for the translated source with machines that read instruction texts.",
